@@ -29,6 +29,11 @@ func main() {
 		exe, _ := os.Executable()
 		*verif = filepath.Dir(filepath.Dir(exe))
 	}
+	nameTablePath = filepath.Join(*verif, "engine", "names.json")
+	if _, err := os.Stat(nameTablePath); err != nil {
+		exe, _ := os.Executable()
+		nameTablePath = filepath.Join(filepath.Dir(exe), "names.json")
+	}
 	seed := 0
 	if s := os.Getenv("VERIF_SEED"); s != "" {
 		seed, _ = strconv.Atoi(s)
@@ -91,6 +96,7 @@ func main() {
 		}()
 		if *tier == "thorough" && os.Getenv("VERIF_MUTANT_DIR") == "" && len(id) == 3 {
 			c.SelfTest = runSelfTest(id, abs, *verif)
+			c.Robust = runRenameRobustness(p, id, abs, *verif)
 		}
 		if *dump {
 			for _, o := range c.Obs {
